@@ -54,6 +54,33 @@ def run_guards(ctx):
         ctx.violation("ack-guards", "one-at-a-time", "initiate sends barriers without checking that no checkpoint is pending: two interleaved barrier rounds mix acks", site=ib.js["span"])
 
 
+def run_fresh_id(ctx):
+    """acks are matched to a round by checkpoint id only, so an id that went out on a barrier must never be reused: on every
+    path of initiate() a barrier send is either preceded by the increment of next_checkpoint_id or followed by it before the
+    function returns (an early return between a send and the increment lets the retry reuse the id, and a stale ack of the
+    abandoned round completes the new one with an old snapshot)"""
+    ib = ctx.need_body(COORD + "::initiate", rule="fresh-id")
+    sends = [(bb, t) for bb, t in ib.calls() if t["callee"].endswith("::try_send") or t["callee"].endswith("Sender::<T>::send")]
+    incs = []
+    for bb in sorted(ib.live):
+        for s in ib.stmts(bb):
+            p = s["d"]["p"]
+            if p and isinstance(p[-1], dict) and p[-1].get("f") == "next_checkpoint_id":
+                incs.append(bb)
+    ctx.floor("fresh-id", "barrier sends in initiate", len(sends), 1)
+    if not incs:
+        ctx.violation("fresh-id", "id-consumed", "initiate never advances next_checkpoint_id: every round reuses the same id", site=ib.js["span"])
+        return
+    for bb, t in sends:
+        before = any(ib.dominates(w, bb) for w in incs)
+        rets = ib.return_blocks()
+        after = not any(r in ib.reachable(bb, avoid_blocks=incs) for r in rets if r != bb)
+        if before or after:
+            ctx.ok("fresh-id", "id-consumed", "the id is consumed %s the barrier is sent" % ("before" if before else "on every path after"), site=t["sp"])
+        else:
+            ctx.violation("fresh-id", "id-consumed", "initiate can return after a barrier with id N went out without advancing next_checkpoint_id: the next round reuses N, receive_ack accepts the abandoned round's ack, and the checkpoint is assembled from snapshots of two different cuts", site=t["sp"])
+
+
 def run_marker(ctx):
     F = ctx.facts()
     cg = ctx.cg()
@@ -82,4 +109,5 @@ def run_marker(ctx):
 
 def run(ctx):
     ctx.guard("ack-guards", lambda: run_guards(ctx))
+    ctx.guard("fresh-id", lambda: run_fresh_id(ctx))
     ctx.guard("marker", lambda: run_marker(ctx))
